@@ -215,6 +215,25 @@ func c11Run(r *core.Run) {
 	if !o.Accepted() {
 		r.Violate("C11:no-recovery:"+errClass(o), "after %d faulted verifications through one options value, the honest quote is still rejected: %s", nFaults, o.ErrText())
 	}
+	// the same options value then serves another honest platform (its own PKI, collateral and PCS) with
+	// collateral checking, and after that the first platform's quote again without: each is accepted
+	if r.T.Bool() {
+		w2 := world.NewWorld(r.T, world.Cfg{Processor: 1, AuthLen: 0, NetLat: -1})
+		shared.Getter, shared.TrustedRoots, shared.Now = w2.PCS, w2.Pool, timeSet(w2.Times)
+		shared.GetCollateral, shared.CheckRevocations = true, r.T.Bool()
+		o2 := verifyRaw(w2.Quote.Bytes(), shared)
+		shared.Getter, shared.TrustedRoots, shared.Now = w.PCS, w.Pool, timeSet(w.Times)
+		shared.GetCollateral, shared.CheckRevocations = false, false
+		o1 := verifyRaw(raw, shared)
+		r.Eval()
+		r.Probe("options_value_serves_a_second_platform")
+		if !o2.Accepted() {
+			r.Violate("C11:honest-rejected-second-platform:"+errClass(o2), "an options value that had served one honest platform rejects the honest quote of a second one (with collateral): %s", o2.ErrText())
+		}
+		if !o1.Accepted() {
+			r.Violate("C11:honest-rejected-after-serving-another-platform:"+errClass(o1), "an options value that had just verified another platform's quote with collateral rejects the first platform's honest quote without collateral checking: %s", o1.ErrText())
+		}
+	}
 }
 
 func lenBucket(n int) string {
@@ -280,7 +299,7 @@ func init() {
 	register(&core.Check{
 		ID:    "C11",
 		Level: "exploration",
-		Rule: "run 0: the repository's two Intel sample quotes under the embedded root; every other run: one honest world from the tape (fresh PKI, platform, quote, TCB Info with the matching UpToDate level at a tape-chosen position, optional TDX-module branch, QE identity, CRLs of unrelated serials; auth-data length in {0,1,31,32,33,255,4096,65535,random}, optional extra bytes / trailing NUL / permuted SGX extension / five distinct instants; issuer-chain headers in one of three equivalent URL encodings (%20, form encoding with +, lower-case hex); quote fields coinciding as on real TDs; authorityKeyIdentifier in key-id / absent / issuer+serial form) verified at 3 option levels x 3 quote forms, then a recovery phase: 1-3 faulted verifications (wire bit flip, endpoint down, clock +40y) through one shared options value followed by the honest quote. " +
+		Rule: "run 0: the repository's two Intel sample quotes under the embedded root; every other run: one honest world from the tape (fresh PKI, platform, quote, TCB Info with the matching UpToDate level at a tape-chosen position, optional TDX-module branch, QE identity, CRLs of unrelated serials; auth-data length in {0,1,31,32,33,255,4096,65535,random}, optional extra bytes / trailing NUL / permuted SGX extension / five distinct instants; issuer-chain headers in one of three equivalent URL encodings (%20, form encoding with +, lower-case hex); quote fields coinciding as on real TDs; authorityKeyIdentifier in key-id / absent / issuer+serial form) verified at 3 option levels x 3 quote forms, then a recovery phase: 1-3 faulted verifications (wire bit flip, endpoint down, clock +40y) through one shared options value followed by the honest quote, then (half of the runs) a second honest platform with collateral and the first one again without, all through that options value. " +
 			"distinct = (auth bucket, extra, NUL, #levels, match index, module branch, module level, spread times, permuted ext)",
 		Assumptions: []string{
 			"Processor-CA chains are outside the claim (the code accepts only the Platform CA name; the property does not say a Processor-CA quote must be accepted)",
@@ -294,6 +313,6 @@ func init() {
 			return 400
 		},
 		Run:       c11Run,
-		MustProbe: []string{"module_branch", "matching_level_not_first", "auth_65535", "recovery_after_faults", "intel_sample_quote", "default_options_on_fake_clock", "crl_lists_same_serial_of_another_issuer"},
+		MustProbe: []string{"module_branch", "matching_level_not_first", "auth_65535", "recovery_after_faults", "intel_sample_quote", "default_options_on_fake_clock", "crl_lists_same_serial_of_another_issuer", "options_value_serves_a_second_platform"},
 	})
 }
